@@ -585,30 +585,30 @@ def judge_key_shape(kshape, n, t2l, obs, pulls):
     return None
 
 
-def job_keys(tier):
+def job_keys(n):
     _safety()
     res = Result()
-    for n in [-1] + NS[tier]:
-        for kshape in M.key_shapes(n):
-            for (t2l, s2l, legacy), form in itertools.product(KEY_ENGINES, ('data', 'expr')):
-                case = {'kind': 'key-shape', 'wrappers': list(kshape[0]), 'key': kshape[1], 'size': kshape[2],
-                        'n': n, 't2l': t2l, 's2l': s2l, 'legacy': legacy, 'form': form}
-                core.CURRENT_CASE[0] = case
-                res.case(('key-shape', kshape, n, t2l, s2l, legacy, form))
-                obs, pulls = run_key_shape(kshape, n, t2l, s2l, legacy, form)
-                res.evaluations += 1
-                res.transitions += 1
-                verdict = judge_key_shape(kshape, n, t2l and not legacy, obs, pulls)
-                if verdict == 'ood':
-                    res.out_of_domain += 1
-                    res.outcomes['key-shape ood: the key would become an unhashable list (C10)'] += 1
-                    continue
-                res.nontrivial += 1
-                res.outcomes['key-shape %s %s' % (kshape[1], 'value' if obs[0] == 'v' else obs[1])] += 1
-                if verdict:
-                    res.fail(verdict[0], case, verdict[1])
-    res.sample({'key-shape': [['list'], 'tuple', 3], 'limitIterators': 2, 'convertTuplesToLists': False,
-                'observed': repr(_short(run_key_shape((('list',), 'tuple', 3), 2, False, False, False)[0]))})
+    for kshape in M.key_shapes(n):
+        for (t2l, s2l, legacy), form in itertools.product(KEY_ENGINES, ('data', 'expr')):
+            case = {'kind': 'key-shape', 'wrappers': list(kshape[0]), 'key': kshape[1], 'size': kshape[2],
+                    'n': n, 't2l': t2l, 's2l': s2l, 'legacy': legacy, 'form': form}
+            core.CURRENT_CASE[0] = case
+            res.case(('key-shape', kshape, n, t2l, s2l, legacy, form))
+            obs, pulls = run_key_shape(kshape, n, t2l, s2l, legacy, form)
+            res.evaluations += 1
+            res.transitions += 1
+            verdict = judge_key_shape(kshape, n, t2l and not legacy, obs, pulls)
+            if verdict == 'ood':
+                res.out_of_domain += 1
+                res.outcomes['key-shape ood: the key would become an unhashable list (C10)'] += 1
+                continue
+            res.nontrivial += 1
+            res.outcomes['key-shape %s %s' % (kshape[1], 'value' if obs[0] == 'v' else obs[1])] += 1
+            if verdict:
+                res.fail(verdict[0], case, verdict[1])
+    if n == 2:
+        res.sample({'key-shape': [['list'], 'tuple', 3], 'limitIterators': 2, 'convertTuplesToLists': False,
+                    'observed': repr(_short(run_key_shape((('list',), 'tuple', 3), 2, False, False, False)[0]))})
     return res
 
 
@@ -930,7 +930,8 @@ def jobs(tier, seed):
     for k in range(nq):
         out.append(('quota-%02d' % k, 'job_quota', (tier, k, nq)))
     out.append(('quota-literals', 'job_quota_literals', ()))
-    out.append(('key-shapes', 'job_keys', (tier,)))
+    for n in [-1] + NS[tier]:
+        out.append(('key-shapes-N%d' % n, 'job_keys', (n,)))
     for part in ('limit', 'shape', 'quota'):
         out.append(('ways-' + part, 'job_ways', (tier, part)))
     return out
